@@ -912,6 +912,26 @@ func c20Cases(tier string) []c20Weighted {
 			add("seed", 200+float64(L), c20Case{Op: "wdirichlet", L: L, Seed: seed, Mode: "seed"})
 			add("seed", 200+float64(L), c20Case{Op: "dirichlet1", L: L, Factor: factors[int(seed)%4], Seed: seed, Mode: "seed"})
 		}
+		// length sweep: every length 3..300 and the neighbourhoods of the powers of two and of
+		// multiples of 1024 (block-wise summation, buffer growth and loop-unrolling boundaries)
+		if seed < 2 || (thorough && seed < 8) {
+			var sweep []int
+			for L := 3; L <= 300; L++ { // the property is stated for lengths >= 3
+				sweep = append(sweep, L)
+			}
+			for _, b := range []int{512, 1024, 2048, 3072, 4096, 8192} {
+				sweep = append(sweep, b-1, b, b+1)
+			}
+			for _, L := range sweep {
+				switch L {
+				case 3, 4, 5, 10, 100, 1000:
+					continue
+				}
+				for _, op := range []string{"wgamma", "wdirichlet", "dirichlet1"} {
+					add("seed", 200+float64(L), c20Case{Op: op, L: L, Factor: factors[(int(seed)+L)%4], Seed: seed, Mode: "seed"})
+				}
+			}
+		}
 		for i, a := range c20Shapes9 {
 			for j, b := range c20Shapes9 {
 				add("seed", 200, c20Case{Op: "dirichlet", Factor: factors[(i+j)%4], Alpha: c20Strs(a, b, c20Shapes9[(i+j+int(seed))%9]), Seed: seed, Mode: "seed"})
@@ -1027,7 +1047,7 @@ func init() {
 			"dna.BuildWeightsDirichlet (b=L): L=3,4,5 x {mid,ext,low,high} e=4 (thorough 6), all9 for L=3,4 (thorough 5) e=2 (thorough also L=6 e=1), L=6 (thorough 6,7,8) under ext e=2. dna.BuildWeightsGamma (b=2L): quick (L,set,e) = (3,mid,4)(3,ext,4)(3,low,2)(3,high,2)(3,six,2)(4,mid,2)(4,ext,2)(4,low,2)(4,high,2)(5,mid,2)(5,ext,2)(6,pair,2); thorough (3,mid,6)(3,ext,6)(3,low,4)(3,high,4)(3,six,2)(3,all9,1)(4,mid,4)(4,ext,4)(4,low,2)(4,high,2)(4,six,1)(5,mid,2)(5,ext,2)(5,low,1)(5,high,1)(6..8,pair,2). " +
 			"stats.Dirichlet: every ordered triple of shapes {0.01,0.2,0.5,0.99,1,1.01,2,10,100} (b = 1 per shape-1 component, 2 per other) under mid,ext,small with e=2 (thorough 5) and under low,high with e=1 (thorough 2), requested totals {1,3,0.25,1000} rotating; 27 vectors (a,b,a,b), a in the 9 shapes, b in {.5,1,2}, under mid e=2; thorough also 27 vectors (a,b,1,b,a) and all 625 4-vectors over {0.2,0.99,1,2,100} under ext e=2. stats.Dirichlet1: 3..6 values x 4 totals x {mid,low,high,all9}. " +
 			"Invalid parameters: Dirichlet with one component (each position of 3, one of 4) or all 3 components in {NaN,+Inf,0,-0,-1,-0.5,-Inf} next to shape-1 components, with 0 and 1 component, Dirichlet1 with nvalues in {-3,-1,0,1}: every sequence of <=10 answers over inv. models.GenerateRates(discrete gamma) for the 9 shapes x ncat 2..4 (thorough 6) x 1..3 (4) sites with every category answer of rand.Intn. " +
-			"Seeded part - the real math/rand stream for seeds 0..15 (thorough 0..127): both weight builders and Dirichlet1 for lengths {3,4,5,10,100,1000}, also after earlier calls of the same operation for longer / shorter inputs in the same process (4 call histories, seeds 0,1), Dirichlet for 81 shape triples and 9 twelve-component vectors per seed. " +
+			"Seeded part - the real math/rand stream for seeds 0..15 (thorough 0..127): both weight builders and Dirichlet1 for lengths {3,4,5,10,100,1000}, for seeds 0,1 (thorough 0..7) every length 3..300 and b-1,b,b+1 for b in {512,1024,2048,3072,4096,8192}, also after earlier calls of the same operation for longer / shorter inputs in the same process (4 call histories, seeds 0,1), Dirichlet for 81 shape triples and 9 twelve-component vectors per seed. " +
 			"Deterministic part - models.DiscreteGamma for 29 shapes in [0.01,100] ({1,1.5,2,3,5,7}x10^k for k=-2..1, 0.99, 0.999999, 1.000001, 1.01, 100; thorough: plus the 401 shapes 10^(-2+i/100)) x ncat 2..32; models.IncompleteGamma(x, a, lnGamma(a)) for a in those shapes and shapes+1, x in {0} U {10^(k/4), k=-48..24} U {1, a, (1 +- d), a(1 +- d) for d in 1e-3,1e-2,1e-1}. " +
 			"Oracles: weights: one per site, each finite and > 0, |sum-L| <= 1e-9 L; Dirichlet: no error, one value per parameter, |sum-total| <= 1e-9 total; invalid parameters (a component that is not a positive finite real, fewer than 2 components) => an error is returned (a tree in which every answer sequence exhausts the budget without the call returning is a call that never reports the error); categories: finite, >= 0 (exact), r[i+1] >= r[i]-1e-9, |mean-1| <= 1e-6; IncompleteGamma: in [0,1] (exact), non-decreasing along the x grid (1e-9), within 1e-7 absolute and 1e-5 relative of the harness' own summation of x^a e^-x sum_n x^n/Gamma(a+n+1). " +
 			"states/transitions are nodes/edges of the RNG choice trees; distinct_nontrivial = distinct (case, answer sequence) leaves that returned a sample which was checked, plus distinct deterministic lattice points and seeded runs.",
